@@ -142,12 +142,15 @@ def maternDensity (sp : Special α) (d : Nat) (ℓ ν k : α) : α :=
 /-- what the transform of `maternBigCor` really is: the Gaussian density with doubled length -/
 def maternBigExact (d : Nat) (ℓ k : α) : α := gauDensity d (((2:Nat):α) * ℓ) k
 
-/-- `JBessel.spectral_density` (the divisor is `np.minimum(gamma(nu - d/2 + 1), 100)`) -/
+/-- `JBessel.spectral_density`: the divisor `gamma(nu - d/2 + 1)` is cut at `100` only near its pole
+    (`nu - d/2 + 1 < 1`), as in the code after the D19 repair -/
 def jbesselDensity (sp : Special α) (d : Nat) (ℓ ν k : α) : α :=
   if k < ((1:Nat):α) / ℓ then
-    let g := sp.gamma (ν - ((d:Nat):α) / ((2:Nat):α) + ((1:Nat):α))
+    let a := ν - ((d:Nat):α) / ((2:Nat):α) + ((1:Nat):α)
+    let g := sp.gamma a
+    let divisor := if a < ((1:Nat):α) then (if ((100:Nat):α) < g then ((100:Nat):α) else g) else g
     npow (ℓ / sqrt Transc.pi) d * sp.gamma (ν + ((1:Nat):α))
-      / (if ((100:Nat):α) < g then ((100:Nat):α) else g)
+      / divisor
       * rpow (((1:Nat):α) - npow (k * ℓ) 2) (ν - ((d:Nat):α) / ((2:Nat):α))
   else ((0:Nat):α)
 
